@@ -456,7 +456,7 @@ def model_export_to_file(f, model=None, repo=None):
                             if list_obj is not None:
                                 if type(list_obj) in PRIMITIVE_PYTHON_TYPES:
                                     f.write(
-                                        f'{id(obj)} -> "{list_obj}:{type(list_obj).__name__}"'  # noqa
+                                        f'{id(obj)} -> "{dot_escape(str(list_obj))}:{type(list_obj).__name__}"'  # noqa
                                         f' [label="{attr_name}:{idx}" {endmark}]\n'
                                     )
                                 else:
@@ -472,7 +472,11 @@ def model_export_to_file(f, model=None, repo=None):
 
                     if type(attr_value) in PRIMITIVE_PYTHON_TYPES:
                         if attr_name == "name":
-                            name = attr_value
+                            name = (
+                                dot_escape(attr_value)
+                                if isinstance(attr_value, str)
+                                else attr_value
+                            )
                         else:
                             attrs += (
                                 f"{required}{attr_name}:"
